@@ -38,6 +38,7 @@ type Prog struct {
 	VariantLevel int
 	Hidden       map[*ssa.Function]bool
 	Inlined      []string
+	Split        int // struct allocations of new types split into their fields (variant 2)
 
 	pkgList []*packages.Package
 	cg      *callgraph.Graph
@@ -352,6 +353,33 @@ func (p *Prog) AllFuncNames() []string {
 	return out
 }
 
+// AllTypeNames lists the named types declared in the main module ("type <pkg>.<Name>").
+func (p *Prog) AllTypeNames() []string {
+	var out []string
+	for _, sp := range p.SSAPkgs {
+		for _, m := range sp.Members {
+			if t, ok := m.(*ssa.Type); ok {
+				out = append(out, "type "+Short(sp.Pkg.Path())+"."+t.Name())
+			}
+		}
+	}
+	sort.Strings(out)
+	return out
+}
+
+// isNewType: a named type of the main module that did not exist on the tree the
+// rule tables were confirmed on (same role as the helper list: it only steers
+// the normalisation, never a verdict).
+func isNewType(t *types.Named) bool {
+	if t == nil || t.Obj() == nil || t.Obj().Pkg() == nil || t.Obj().Exported() || !strings.HasPrefix(t.Obj().Pkg().Path(), Mod) {
+		return false
+	}
+	if t.TypeArgs().Len() > 0 || t.TypeParams().Len() > 0 {
+		return false
+	}
+	return IgnoreBaseline || !baselineFuncs["type "+Short(t.Obj().Pkg().Path())+"."+t.Obj().Name()]
+}
+
 // Variant builds a behaviour-equivalent variant of the program in which small
 // helpers of the main module are inlined into their callers at SSA level
 // (level 1: unexported functions/methods with exactly one use, a plain static
@@ -379,12 +407,17 @@ func (p *Prog) Variant(level int) *Prog {
 	}
 	// `defer h(args)` / `go h(args)` of a new helper become deferred / spawned closures with h inlined
 	closureized := map[*ssa.Function]bool{}
-	for _, f := range all {
-		for _, g := range ssa.ClosureizeDeferAndGo(f, func(callee *ssa.Function) bool { return callee.Pkg == f.Pkg && isNewHelper(callee) }) {
-			closureized[g] = true
+	for round := 0; round < 3; round++ { // the closures made in one round may contain further such calls
+		n := 0
+		for _, f := range all {
+			for _, g := range ssa.ClosureizeDeferAndGo(f, func(callee *ssa.Function) bool { return callee.Pkg == f.Pkg && isNewHelper(callee) }) {
+				closureized[g] = true
+				n++
+			}
 		}
-	}
-	if len(closureized) > 0 {
+		if n == 0 {
+			break
+		}
 		all = all[:0]
 		for _, sp := range spkgs {
 			all = append(all, SSAPkgFuncs(prog, sp)...)
@@ -476,12 +509,48 @@ func (p *Prog) Variant(level int) *Prog {
 		}
 	}
 	inlined := map[*ssa.Function]bool{}
-	for _, f := range all {
-		got := ssa.InlineStaticCalls(f, func(site *ssa.Call, callee *ssa.Function) bool {
-			return callee.Pkg == f.Pkg && candidate(callee)
-		}, 4)
-		for _, g := range got {
-			inlined[g] = true
+	helperPass := func() {
+		for _, f := range all {
+			got := ssa.InlineStaticCalls(f, func(site *ssa.Call, callee *ssa.Function) bool {
+				return callee.Pkg == f.Pkg && candidate(callee)
+			}, 4)
+			for _, g := range got {
+				inlined[g] = true
+			}
+		}
+	}
+	helperPass()
+	if level >= 2 {
+		// A function literal that is applied on the spot – typically after a new higher-order helper
+		// (`c.locked(func() { … })`) was inlined – is its body: inline it too (never one that calls
+		// recover(); its defers run where its RunDefers stood), then look for helpers once more.
+		n := 0
+		for _, f := range all {
+			got := ssa.InlineStaticCalls(f, func(site *ssa.Call, callee *ssa.Function) bool {
+				mc, ok := site.Call.Value.(*ssa.MakeClosure)
+				return ok && callee.Parent() != nil && mc.Referrers() != nil && len(*mc.Referrers()) == 1
+			}, 2)
+			n += len(got)
+			if len(got) > 0 {
+				dead := map[*ssa.Function]bool{}
+				for _, g := range got {
+					dead[g] = true
+				}
+				if ssa.RemoveDeadClosures(f, dead) > 0 {
+					for g := range dead {
+						inlined[g] = true
+					}
+				}
+			}
+		}
+		if n > 0 {
+			helperPass()
+		}
+		// `x.m` used as a function value, m a new method: the wrapper becomes m's body over the receiver.
+		for _, f := range all {
+			for _, g := range ssa.InlineBoundMethods(f, func(m *ssa.Function) bool { return m.Pkg == f.Pkg && isNewHelper(m) }) {
+				inlined[g] = true
+			}
 		}
 	}
 	for g := range closureized {
@@ -506,6 +575,46 @@ func (p *Prog) Variant(level int) *Prog {
 		}
 		v.Hidden[g] = true
 		v.Inlined = append(v.Inlined, FuncName(g))
+	}
+	if level >= 2 {
+		var wrappers []*ssa.Function
+		// A struct of a new unexported type that is only ever accessed field by field (its methods were
+		// new helpers and are inlined by now) is split into its fields: locals moved into a struct, and
+		// closures turned into methods of it, get back the shape of locals captured by closures.
+		sites := map[*ssa.Function]int{}
+		seenFn := map[*ssa.Function]bool{}
+		var scan func(f *ssa.Function)
+		scan = func(f *ssa.Function) {
+			if f == nil || seenFn[f] {
+				return
+			}
+			seenFn[f] = true
+			for _, b := range f.Blocks {
+				for _, in := range b.Instrs {
+					if mc, ok := in.(*ssa.MakeClosure); ok {
+						if k, ok := mc.Fn.(*ssa.Function); ok {
+							sites[k]++
+							if k.Parent() == nil { // bound-method wrapper: not among the package's functions
+								wrappers = append(wrappers, k)
+								scan(k)
+							}
+						}
+					}
+				}
+			}
+		}
+		for _, f := range all {
+			if !v.Hidden[f] {
+				scan(f)
+			}
+		}
+		split := 0
+		for _, f := range append(append([]*ssa.Function(nil), all...), wrappers...) {
+			if !v.Hidden[f] {
+				split += ssa.ScalarReplaceStructs(f, isNewType, sites)
+			}
+		}
+		v.Split = split
 	}
 	sort.Strings(v.Inlined)
 	return v
